@@ -300,8 +300,18 @@ func c13Long(w *mon.W, idx int) {
 // few ones at its head, around 2^30 and in its last words; ranges near the top of the int32 domain.
 // The pages in between are never touched.
 func c13Huge(w *mon.W, _ int) {
-	nw := 1<<25 - 1
-	n := 64 * nw
+	for _, nw := range []int{1<<25 - 1, 1 << 25} {
+		if !c13HugeN(w, nw) {
+			return
+		}
+	}
+}
+
+func c13HugeN(w *mon.W, nw int) bool {
+	n := 1<<31 - 1 // positions are int32: the last addressable end
+	if n64 := 64 * int64(nw); n64 < int64(n) {
+		n = int(n64)
+	}
 	bm := make([]uint64, nw)
 	ones := []int{3, 1 << 20, 1<<30 + 5, n - 700, n - 65, n - 1}
 	for _, p := range ones {
@@ -337,13 +347,13 @@ func c13Huge(w *mon.W, _ int) {
 		w.Op, w.A, w.B = "NextOne(huge)", int64(x.i), int64(x.end)
 		if g, e := bitmap.NextOne(bm, int32(x.i), int32(x.end)), next(x.i, x.end); g != e {
 			w.Fail("NextOne/huge-bitmap", mon.D{"nwords": nw, "i": x.i, "end": x.end, "got": g, "expected": e})
-			return
+			return false
 		}
 		if x.end >= 1 {
 			w.Op = "PrevOne(huge)"
 			if g, e := bitmap.PrevOne(bm, int32(x.i), int32(x.end)), prev(x.i, x.end); g != e {
 				w.Fail("PrevOne/huge-bitmap", mon.D{"nwords": nw, "i": x.i, "end": x.end, "got": g, "expected": e})
-				return
+				return false
 			}
 		}
 		w.Tick()
@@ -352,4 +362,5 @@ func c13Huge(w *mon.W, _ int) {
 	w.Bucket("bitmap=2^31-64-bits")
 	w.Distinct(gen.Hash64(0x4096, uint64(len(qs))))
 	w.Sample(func() interface{} { return mon.D{"nwords": nw, "ones_at": ones, "ranges": len(qs)} })
+	return true
 }
